@@ -128,6 +128,9 @@ func main() {
 	case "closefault":
 		scenarioCloseFault(*stacks)
 		return
+	case "tunfail":
+		scenarioTunFail(*stacks)
+		return
 	}
 	if err := os.MkdirAll(*out, 0o755); err != nil {
 		panic(err)
